@@ -45,8 +45,9 @@ pub fn exec(case: &Value) -> Vec<Value> {
     let _ = std::fs::create_dir_all(&dir);
     // two files: the first `split` lines, then the rest
     let split = get_u(case, "split").min(lines.len());
-    let f1 = dir.join("a.txt");
-    let f2 = dir.join("b.txt");
+    // the file that is read first has the name that sorts last (the order of the list counts, not the order of the names)
+    let f1 = dir.join("z-first.txt");
+    let f2 = dir.join("a-second.txt");
     std::fs::write(&f1, lines[..split].iter().map(|l| format!("{l}\n")).collect::<String>()).unwrap();
     std::fs::write(&f2, lines[split..].iter().map(|l| format!("{l}\n")).collect::<String>()).unwrap();
     let mut out = vec![];
